@@ -433,8 +433,34 @@ def _c09_codes() -> List[Obl]:
     return _codes("C09", r"c09", [(["tvb_gamma", "tvb_delta_tt", "tvb_zeta3", "tvb_omega"], {"tvb_gamma", "tvb_zeta3", "tvb_omega"})])
 
 
+CF_LEMMAS = ("lemma_chunk", "lemma_cast", "lemma_pow2_strictly_increases_or_eq", "lemma_be_append_field", "lemma_be_fill", "lemma_word_field", "lemma_be_tail",
+             "lemma_or_bits", "lemma_shr1_bits", "lemma_shr_bits", "lemma_rotr_bits", "lemma_le_append_field", "lemma_le_fill", "lemma_le_tail",
+             "lemma_wbit", "lemma_push")
+
+
+def _verus_writer_copy_from(prop: str) -> List[Obl]:
+    """Unbounded proof of the optimised BufBitWriter::copy_from (every n, generic same-endianness source), one Verus unit per word type."""
+    out = []
+    pl = prop.lower()
+    for w in WWORDS:
+        bits = w[1:]
+        unit = f"writer_copy_from@W={w};BITS={bits}"
+        for el, E in ENDIANS:
+            out.append(Obl(id=f"{pl}.verus.copy_from.{E}.{w}", prop=prop, engine="verus", target=f"{unit}:copy_from_{el}",
+                           fns=[f"BufBitWriter<{E},_<{w}>>::copy_from"],
+                           note="real text, WW::Word instantiated; every n, every Inv_W state, any same-endianness BitRead source (trait contract); "
+                                "view' = view ++ the reader's next n bits, reader advanced by n; write_bits taken by contract (Kani c01.write_bits)"))
+        for l in CF_LEMMAS:
+            out.append(Obl(id=f"{pl}.verus.copy_from.{l}.{w}", prop=prop, engine="verus", target=f"{unit}:{l}", fns=[]))
+        out.append(Obl(id=f"{pl}.std_spec.rotate_right.{w}", prop=prop, engine="kani", target=f"obl_stdspec::std_spec_rotate_right_{w}", fns=[f"{w}::rotate_right"],
+                       note="discharges the rotate_right axiom of the Verus unit"))
+        out.append(Obl(id=f"{pl}.std_spec.byte_order.{w}", prop=prop, engine="kani", target=f"obl_stdspec::std_spec_byte_order_{w}", fns=[f"{w}::to_be", f"{w}::to_le"],
+                       note="discharges the byte-order axioms of the Verus unit"))
+    return out
+
+
 def _c08() -> List[Obl]:
-    out = _stdspec("C08", ["min_u64"])
+    out = _stdspec("C08", ["min_u64"]) + _verus_writer_copy_from("C08")
     for u, fn in (("copy_to_generic", "copy_to"), ("copy_from_generic", "copy_from")):
         for feats in ("", "checks"):
             sfx = ".checks" if feats else ""
